@@ -370,6 +370,11 @@ func boundedByContract(s *State, base, n ssa.Value, strict bool) (bool, string) 
 			}
 			return false, ""
 		}
+	case IsCallTo(call, X("encoding/binary", "", "PutUvarint")):
+		// n <= MaxVarintLen64 for every uint64; safe when the target buffer is the sliced operand and holds >= 10 bytes
+		if l, ok := s.FixedLen(call.Call.Args[0]); ok && l >= 10 && s.Key(rootOf(s.Canon(call.Call.Args[0]))) == s.Key(rootOf(s.Canon(base))) {
+			return true, "n = binary.PutUvarint(operand[:], x) <= 10 <= len(operand)"
+		}
 	case call.Call.IsInvoke() && call.Call.Method.Name() == "Read" && idx == 0:
 		if len(call.Call.Args) == 1 && s.Key(call.Call.Args[0]) == kb {
 			return true, "n from Read(operand) satisfies 0 <= n <= len(operand) (io.Reader contract)"
